@@ -406,7 +406,8 @@ def lexer_terminates(idx, ns, first_bytes, entry='getNextToken', budget=40):
 MAX_ACCEPTED_DEPTH_BOUND = 2000
 _REC_FIXTURE = os.path.join(os.path.dirname(os.path.abspath(__file__)), 'fixtures', 'recursion.cpp')
 _REC_EXPECT = {'fixture::Node::accept': 'structural', 'fixture::Reader::selfRecursive': 'unbounded', 'fixture::Reader::mutualA': 'unbounded',
-               'fixture::Reader::guardedInline': 'guarded', 'fixture::Reader::guardedRaii': 'guarded', 'fixture::Reader::guardTooLate': 'unbounded'}
+               'fixture::Reader::guardedInline': 'guarded', 'fixture::Reader::guardedRaii': 'guarded', 'fixture::Reader::guardTooLate': 'unbounded',
+               'fixture2::Node::accept': 'unbounded'}
 
 
 def _tree_descent_methods(idx, base):
@@ -439,9 +440,12 @@ def recursion_fixture_verdicts():
         fe._annotate(o, fe._Pos())
     idx = cast.Index(objs)
     cg = CallGraph(idx)
-    reach = cg.reachable([f for f in idx.all_funcs() if f.name == 'entry'])
-    S = _tree_descent_methods(idx, 'fixture::Node') or set()
-    return {d['names'][0]: d['kind'] for d in decide_cycles(idx, cg, reach, S)}
+    out = {}
+    for ns in ('fixture', 'fixture2'):
+        reach = cg.reachable([f for f in idx.all_funcs() if f.qname == ns + '::entry'])
+        S = _tree_descent_methods(idx, ns + '::Node') or set()
+        out.update({d['names'][0]: d['kind'] for d in decide_cycles(idx, cg, reach, S, ns + '::Node')})
+    return out
 
 
 def rule_recursion(rep, rid, tu, tree_base=None, min_reachable=40):
@@ -463,7 +467,7 @@ def rule_recursion(rep, rid, tu, tree_base=None, min_reachable=40):
         S = _tree_descent_methods(idx, tree_base)
         if not S:
             raise AnalysisBroken('%s: syntax-tree base class %s with a visitor-taking virtual method not found' % (tu, tree_base))
-    cycles = decide_cycles(idx, cg, reach, S)
+    cycles = decide_cycles(idx, cg, reach, S, tree_base)
     unb = [c for c in cycles if c['kind'] == 'unbounded']
     rep.add(rid, '%s:call-graph' % tu, True, tu, '%d functions with a body, %d reachable from main, %d recursive components' % (
         len(cg.nodes), len(reach), len(cycles)), nontrivial=False)
